@@ -108,6 +108,11 @@ def write_rules(rng, path):
   rules, lines = [], []
   for i in range(nrules):
     pat, out = aggsys.gen_rule(rng)
+    if rules and rng.random() < 0.4:
+      # a second aggregate of the same inputs (a sum and a count of one input pattern): same pattern, another output name
+      pat = rules[rng.randrange(len(rules))]['pat']
+      nf = sum(1 for p_ in pat if p_['k'] in ('field', 'dfield'))
+      out = [dict(k='lit', v=aggsys.enc('c' * (i + 1)))] + [dict(k='ref', n=f) for f in range(1, nf + 1) if rng.random() < 0.7]
     rules.append(dict(pat=pat, out=out))
     in_text = '.'.join(aggsys.render_part(p) for p in pat)
     out_text = '.'.join(aggsys.render_part(p) if p['k'] == 'lit' else '<f%d>' % p['n'] for p in out)
